@@ -72,3 +72,39 @@ def find(prop, violation):
     if name not in _cache:
         _cache[name] = run_finder(name)
     return _cache[name]
+
+
+def run_finders(names, timeout=1800):
+    """thorough tier: run several finders in one build of the real crate; returns {name: result}"""
+    cache = os.environ.get('VX_TARGET_CACHE')
+    target = cache or tempfile.mkdtemp(prefix='vx_replay_', dir=os.environ.get('VX_SCRATCH', '/var/tmp'))
+    env = dict(os.environ, STAM_VERIF_DIR=VERIF, RUSTFLAGS='--cfg stam_verif', CARGO_NET_OFFLINE='true')
+    out = {}
+    try:
+        for name in names:
+            cmd = ['cargo', 'test', '--offline', '--manifest-path', os.path.join(gen.REPO, 'Cargo.toml'), '--target-dir', target,
+                   '--lib', 'verif_hooks::replay::' + name, '--', '--nocapture', '--exact']
+            try:
+                p = subprocess.run(cmd, capture_output=True, text=True, env=env, timeout=timeout)
+                txt = p.stdout + p.stderr
+            except subprocess.TimeoutExpired:
+                txt = 'TIMEOUT'
+            res = dict(finder=name, cmd=' '.join(cmd), found=False, completed=False)
+            for ln in txt.splitlines():
+                if ln.startswith('WITNESS '):
+                    res['found'] = True
+                    try:
+                        res['input'] = json.loads(ln[len('WITNESS '):])
+                    except Exception:
+                        res['input'] = ln[len('WITNESS '):]
+                    break
+            if not res['found'] and 'NO-WITNESS' in txt:
+                res['completed'] = True
+            if not res['found'] and not res['completed']:
+                res['note'] = 'finder did not run to completion: ' + txt[-400:]
+            out[name] = res
+            _cache[name] = dict(res, note=res.get('note', 'finder enumerated its small-input space through the real code without finding a failing input'))
+    finally:
+        if not cache:
+            shutil.rmtree(target, ignore_errors=True)
+    return out
